@@ -32,6 +32,7 @@ def main(argv=None):
     os.chdir(evidence.VERIF)
     env.sweep_stale()
     env.install()
+    env.scratch_base()
     m = importlib.import_module('checks.' + MODULES[a.prop])
     if a.replay:
         with open(a.replay) as f:
